@@ -28,9 +28,10 @@ package mobius
 // options field (113) is present with the automatic-response bit (bit 2) clear empties it.
 
 //@ func HandleSetClientUserInfo(cc *hotline.ClientConn, t *hotline.Transaction) (res []hotline.Transaction)
+//@   property C13
 //@   let opt := reqdata(0, 113)
-//@   ensures !isnil(opt) && len(opt) >= 2 && old(bitof(u16(bytes(opt)), 2)) == 0 ==> len(cc.AutoReply) == 0
-//@   ensures !isnil(opt) && len(opt) >= 2 && old(bitof(u16(bytes(opt)), 2)) == 1 ==> same(cc.AutoReply, reqdata(0, 215))
+//@   before call (hotline.ClientManager).List assert !isnil(opt) && len(opt) >= 2 && old(bitof(u16(bytes(opt)), 2)) == 0 ==> len(cc.AutoReply) == 0
+//@   before call (hotline.ClientManager).List assert !isnil(opt) && len(opt) >= 2 && old(bitof(u16(bytes(opt)), 2)) == 1 ==> same(cc.AutoReply, reqdata(0, 215))
 
 // ---------------------------------------------------------------------------------
 // C17: the ban list.  IsBanned answers from the map; Add records the entry, leaves every other
@@ -272,6 +273,37 @@ package mobius
 //@   before call hotline.NewField assert arg0[0] == 0 && arg0[1] == 101 ==> len(arg1) <= 8192
 //@   before call hotline.NewTransaction#2 assert priv(c, 9)
 //@   before call hotline.NewTransaction assert arg0[0] == 0 && arg0[1] == 106
+//@   before call hotline.NewTransaction#1 assert arg1 == c.ID
+//@   before call hotline.NewTransaction#2 assert arg1 == c.ID
+//@   before call (hotline.ChatManager).Members assert bytes(arg1) == bytes(reqdata(0, 114))[0:4]
+//@   before call hotline.NewField#1 assert arg0[0] == 0 && arg0[1] == 114 && same(arg1, reqdata(0, 114))
+
+// Private-chat notices go to the members of the chat the request names -- one transaction per
+// member, addressed to that member, carrying that chat's ID: a join notice to those who were
+// members before the join (the joiner is added afterwards and gets the member list as a reply), a
+// leave notice to those who remain after the leaver was removed, a subject change to all members.
+
+//@ func HandleJoinChat(cc *hotline.ClientConn, t *hotline.Transaction) (res []hotline.Transaction)
+//@   property C12
+//@   before call (hotline.ChatManager).Members assert bytes(arg1) == bytes(reqdata(0, 114))[0:4]
+//@   before call hotline.NewTransaction assert arg0[0] == 0 && arg0[1] == 117 && arg1 == c.ID
+//@   before call hotline.NewField#1 assert arg0[0] == 0 && arg0[1] == 114 && same(arg1, reqdata(0, 114))
+//@   before call (hotline.ChatManager).Join assert bytes(arg1) == bytes(reqdata(0, 114))[0:4] && arg2 == cc && len(callres("(hotline.ChatManager).Members#1")) >= 0
+//@   before call (hotline.ChatManager).Members#2 assert same(callarg("(hotline.ChatManager).Join", 2), cc)
+
+//@ func HandleLeaveChat(cc *hotline.ClientConn, t *hotline.Transaction) (res []hotline.Transaction)
+//@   property C12
+//@   before call (hotline.ChatManager).Leave assert bytes(arg1) == bytes(reqdata(0, 114))[0:4] && arg2 == cc.ID
+//@   before call (hotline.ChatManager).Members assert bytes(arg1) == bytes(reqdata(0, 114))[0:4] && callarg("(hotline.ChatManager).Leave", 2) == cc.ID
+//@   before call hotline.NewTransaction assert arg0[0] == 0 && arg0[1] == 118 && arg1 == c.ID
+//@   before call hotline.NewField#1 assert arg0[0] == 0 && arg0[1] == 114 && same(arg1, reqdata(0, 114))
+
+//@ func HandleSetChatSubject(cc *hotline.ClientConn, t *hotline.Transaction) (res []hotline.Transaction)
+//@   property C12
+//@   before call (hotline.ChatManager).Members assert bytes(arg1) == bytes(reqdata(0, 114))[0:4]
+//@   before call hotline.NewTransaction assert arg0[0] == 0 && arg0[1] == 119 && arg1 == c.ID
+//@   before call hotline.NewField#1 assert arg0[0] == 0 && arg0[1] == 114 && same(arg1, reqdata(0, 114))
+//@   before call hotline.NewField#2 assert arg0[0] == 0 && arg0[1] == 115 && same(arg1, reqdata(0, 115))
 
 // ---------------------------------------------------------------------------------
 // C08: the download reply.  The only refusal is the privilege denial; the transfer size field is
@@ -282,6 +314,9 @@ package mobius
 //@   property C08
 //@   before call (*hotline.ClientConn).NewErrReply assert !priv(cc, 2)
 //@   before call (*hotline.flattenedFileObject).TransferSize assert arg1 == 0 && arg0 == callres("hotline.NewFileWrapper", 0).Ffo
+//@   before call hotline.NewFileWrapper assert isnil(reqdata(0, 203)) ==> arg2 == 0
+//@   before call hotline.NewFileWrapper assert !isnil(reqdata(0, 203)) && old(reqdata(0, 203)[41]) >= 1 ==> arg2 == old(u32(bytes(reqdata(0, 203)), 46))
+//@   before call (*hotline.FileResumeData).UnmarshalBinary assert same(arg1, reqdata(0, 203))
 //@   before call hotline.NewField#3 assert arg0[0] == 0 && arg0[1] == 108
 //@   before call hotline.NewField#3 assert isnil(reqdata(0, 204)) ==> same(arg1, callres("(*hotline.flattenedFileObject).TransferSize"))
 //@   before call hotline.NewField#3 assert !isnil(reqdata(0, 204)) ==> len(arg1) == 4 && ptsto(arg1, hlFile.Ffo.FlatFileDataForkHeader.DataSize)
@@ -315,3 +350,32 @@ package mobius
 //@ func HandleSetFileInfo(cc *hotline.ClientConn, t *hotline.Transaction) (res []hotline.Transaction)
 //@   property C11
 //@   before call (*hotline.fileWrapper).Move assert hlFile.Name == pbase(callres("hotline.ReadPath#2", 0)) && arg1 == callres("hotline.ReadPath#3", 0)
+
+// ---------------------------------------------------------------------------------
+// C09: the upload reply.  An upload is refused when the final name exists; for a resume request
+// the offset reported to the client (and recorded as the transfer size) is the size of the partial
+// file <name>.incomplete next to the final name.
+
+//@ func HandleUploadFile(cc *hotline.ClientConn, t *hotline.Transaction) (res []hotline.Transaction)
+//@   property C09
+//@   before call (hotline.FileStore).Stat#1 assert arg1 == callres("hotline.ReadPath", 0)
+//@   before call (hotline.FileStore).Stat#2 assert arg1 == strcat(callres("hotline.ReadPath", 0), ".incomplete")
+//@   before call (*hotline.ClientConn).NewFileTransfer assert callres("(hotline.FileStore).Stat#1", 1) != nil
+//@   before call hotline.NewForkInfoList assert u32(bytes(arg0)) == callres("Size") % 4294967296 && callres("(hotline.FileStore).Stat#2", 1) == nil
+//@   before call hotline.NewField#2 assert arg0[0] == 0 && arg0[1] == 203 && same(arg1, callres("BinaryMarshal", 0))
+//@   before call hotline.NewFileResumeData assert len(arg0) == 1
+
+// ---------------------------------------------------------------------------------
+// C15: the three password cases of a single-account edit.  The field absent clears the password
+// (hash of the empty string); the one-byte marker {0} leaves it alone (no hash is computed, so no
+// store to the Password field can happen: every such store is a HashAndSalt result, see the
+// password obligations); anything else is hashed as given.
+
+//@ func HandleSetUser(cc *hotline.ClientConn, t *hotline.Transaction) (res []hotline.Transaction)
+//@   property C15
+//@   let pw := reqdata(0, 106)
+//@   before call hotline.HashAndSalt#1 assert isnil(pw) && len(arg0) == 0
+//@   before call hotline.HashAndSalt#2 assert !(len(pw) == 1 && pw[0] == 0) && same(arg0, pw)
+//@   before call (hotline.AccountManager).Update assert isnil(pw) ==> arg1.Password == callres("hotline.HashAndSalt#2")
+//@   before call (hotline.AccountManager).Update assert !isnil(pw) && !(len(pw) == 1 && pw[0] == 0) ==> arg1.Password == callres("hotline.HashAndSalt#2")
+//@   before call (hotline.AccountManager).Update assert arg2 == arg1.Login && arg1.Login == callres("(hotline.AccountManager).Get").Login
